@@ -380,12 +380,14 @@ def _special_case(args):
 
 def run(ctx):
     scratch = ctx.scratch
-    depth = 2 if ctx.quick else 3
+    depth = 3
     items = []
     for bits in range(1, 2 ** N0):
         for stored_var, via_child in (("none", False), ("mixed", False),
                                       ("scalar", True)):
-            items.append((bits, depth, stored_var, via_child, ctx.seed,
+            # quick: depth 3 without stored features, depth 2 otherwise
+            dd = depth if (ctx.thorough or stored_var == "none") else 2
+            items.append((bits, dd, stored_var, via_child, ctx.seed,
                           scratch))
     res = par.pmap(_chain_case, items)
     res2 = par.pmap(_map_case, [(bt, ctx.seed, scratch)
